@@ -2,8 +2,10 @@
    extracted inductive types; no Extract Constant. *)
 From Coq Require Import ExtrOcamlBasic.
 From Coq Require Extraction.
-From I18n Require Import Lib.Outcome Model.IntExpr Model.PluralForms.
+From I18n Require Import Lib.Outcome Model.IntExpr Model.PluralForms
+  Model.FmtPerlBrace Model.FmtInstances.
 Extraction Language OCaml.
 Extraction "model.ml"
   IntExpr.parse_string IntExpr.pyeval IntExpr.codomain IntExpr.period
-  PluralForms.parse_plural_forms PluralForms.check_plurals_core.
+  PluralForms.parse_plural_forms PluralForms.check_plurals_core
+  FmtInstances.perl_parse_ucd FmtPerlBrace.names_of.
